@@ -144,7 +144,9 @@ def respace(rng, text):
     """re-space / line-break a selector: lexemes of the real lexer rejoined with random white space"""
     toks = parser.lexer(text)
     lex = []
-    WS = ["", " ", "  ", "\n", "\t", " \n "]
+    # every character Python's \s (and str.strip) accepts is white space of a selector: also CR / CRLF line ends, form feed,
+    # vertical tab, no-break and wide spaces
+    WS = ["", " ", "  ", "\n", "\t", " \n ", "\r\n", "\r", "\x0c", "\x0b", "\xa0", "\u2003", " \r\n\t"]
     for i, t in enumerate(toks):
         if t.type == "OPERATOR" and t.value == "":
             continue
